@@ -105,11 +105,12 @@ func hasStarAfterSlashWithOperand(s string) bool {
 
 // hasOperatorWord: contains div, mod, and, or as a maximal run of name characters
 func hasOperatorWord(s string) bool {
+	isStart := func(c byte) bool { return c >= 'a' && c <= 'z' || c == '_' }
 	isName := func(c byte) bool {
-		return c >= 'a' && c <= 'z' || c >= '0' && c <= '9' || c == '-' || c == '.' || c == '_'
+		return isStart(c) || c >= '0' && c <= '9' || c == '-' || c == '.'
 	}
 	for i := 0; i < len(s); {
-		if !isName(s[i]) {
+		if !isStart(s[i]) {
 			i++
 			continue
 		}
